@@ -15,6 +15,7 @@ def outcome(src, ns):
         return None, e
 def isq(r): return isinstance(r, measured.Quantity)
 def dec(q): return isinstance(q.magnitude, Decimal)
+def same(A, B): return A.unit.factors == B.unit.factors and A.unit.prefix.base in (0, B.unit.prefix.base) or A.unit.factors == B.unit.factors and B.unit.prefix.base == 0
 def benign(exc): return isinstance(exc, (ZeroDivisionError, OverflowError, measured.FractionalDimensionError))
 '''
 exec(PRELUDE)
@@ -24,11 +25,12 @@ PREDS = {
     "div": ("{qa} / {qb}", "benign(exc) or (isq(r) and r.unit.dimension is da / db and (dec(r) or not (dec(A) or dec(B))))"),
     "pow": ("{qa} ** {k}", "benign(exc) or (isq(r) and r.unit.dimension is da ** {k} and (dec(r) or not dec(A)))"),
     "root": ("(abs({qa}) ** {k2}).root({k2})", "benign(exc) or (isq(r) and r.unit.dimension is da and (dec(r) or not dec(A)))"),
-    "add": ("{qa} + {qb}", "(isq(r) and da is db and r.unit is A.unit) or isinstance(exc, (ConversionNotFound, TypeError))"),
-    "sub": ("{qa} - {qb}", "(isq(r) and da is db and r.unit is A.unit) or isinstance(exc, (ConversionNotFound, TypeError))"),
-    "lt": ("{qa} < {qb}", "(isinstance(r, bool) and da is db) or isinstance(exc, TypeError)"),
+    # same(): the two units differ by a prefix at most, so the operation cannot legitimately fail (whatever the magnitude types)
+    "add": ("{qa} + {qb}", "(isq(r) and da is db and r.unit is A.unit) or (not same(A, B) and isinstance(exc, (ConversionNotFound, TypeError)))"),
+    "sub": ("{qa} - {qb}", "(isq(r) and da is db and r.unit is A.unit) or (not same(A, B) and isinstance(exc, (ConversionNotFound, TypeError)))"),
+    "lt": ("{qa} < {qb}", "(isinstance(r, bool) and da is db) or (not same(A, B) and isinstance(exc, TypeError))"),
     "eq": ("{qa} == {qb}", "exc is None and isinstance(r, bool) and (da is db or r is False)"),
-    "conv": ("{qa}.in_unit({ub})", "(isq(r) and da is db and r.unit is B.unit) or isinstance(exc, ConversionNotFound)"),
+    "conv": ("{qa}.in_unit({ub})", "(isq(r) and da is db and r.unit is B.unit) or (not same(A, B) and isinstance(exc, ConversionNotFound))"),
     "nmul": ("{mb} * {qa}", "benign(exc) or (isq(r) and r.unit.dimension is da and (dec(r) or not (dec(A) or dec(B))))"),
     "ndiv": ("{qa} / {mb}", "benign(exc) or (isq(r) and r.unit.dimension is da and (dec(r) or not (dec(A) or dec(B))))"),
     "rdiv": ("{mb} / {qa}", "benign(exc) or (isq(r) and r.unit.dimension is da ** -1)"),
@@ -59,7 +61,7 @@ def run(tier, seed):
 
     def unit_expr():
         if rng.random() < 0.3:
-            return rng.choice(zoo)
+            return "(%s)" % rng.choice(zoo)  # zoo shapes are not all parenthesised: "x / (a)/b" would not divide by the shape
         parts = []
         for _ in range(rng.choice([1, 1, 2, 3])):
             u = rng.choice(units)
@@ -72,7 +74,9 @@ def run(tier, seed):
     while evals < n and len(failures) < 40:
         ua, ub = unit_expr(), (unit_expr() if rng.random() < 0.7 else None)
         if ub is None:
-            ub = ua if rng.random() < 0.5 else "(%s*%s)" % (rng.choice(prefixes), ua)
+            ub = ua if rng.random() < 0.4 else "(%s*%s)" % (rng.choice(prefixes), ua)
+            if rng.random() < 0.4 and not ua.startswith("((") and not ua.startswith("(1"):
+                ua = "(%s*%s)" % (rng.choice(prefixes), ua)
         ma, mb = rng.choice(mags), rng.choice(mags)
         op = rng.choice(sorted(PREDS))
         fmt = dict(qa="(%s*%s)" % (ma, ua), qb="(%s*%s)" % (mb, ub), ua=ua, ub=ub, ma=ma, mb=mb, k=rng.choice([-2, -1, 2, 3]), k2=rng.choice([2, 3]))
